@@ -230,7 +230,7 @@ vbi_page_table_next_subpage	(const vbi_page_table *pt,
 	last_pgno = *pgno;
 	last_subno = *subno;
 
-	if (last_pgno >= 0x8FF) {
+	if (last_pgno > 0x8FF) {
 		return FALSE;
 	} else if (last_pgno < 0x100) {
 		next_pgno = 0x100;
@@ -264,52 +264,68 @@ vbi_page_table_next_subpage	(const vbi_page_table *pt,
 		next_pgno = last_pgno + 1;
 	}
 
+	/* The lowest page number >= next_pgno in the subpages vector
+	   and the first subpage of this page, 0x900 if none. */
 	min_pgno = 0x900;
+	min_subno = 0;
 
 	for (i = 0; i < pt->subpages_size; ++i) {
-		if (next_pgno <= pt->subpages[i].pgno
-		    && next_pgno < min_pgno) {
+		if (pt->subpages[i].pgno < next_pgno)
+			continue;
+
+		if (pt->subpages[i].pgno < min_pgno
+		    || (pt->subpages[i].pgno == min_pgno
+			&& pt->subpages[i].first < min_subno)) {
 			min_pgno = pt->subpages[i].pgno;
 			min_subno = pt->subpages[i].first;
 		}
 	}
 
-	mask = ~(uint32_t) 0 << (next_pgno & 31);
-	offset = (next_pgno - 0x100) >> 5;
-	mask &= pt->pages[offset];
+	/* The lowest page number >= next_pgno in the pages array,
+	   0x900 if none. */
+	mask = 0;
 
-	next_pgno &= ~31;
+	if (next_pgno < 0x900) {
+		mask = ~(uint32_t) 0 << (next_pgno & 31);
+		offset = (next_pgno - 0x100) >> 5;
+		mask &= pt->pages[offset];
 
-	for (;;) {
-		if (0 != mask)
-			break;
+		next_pgno &= ~31;
 
-		next_pgno += 32;
-		if (next_pgno >= 0x900)
-			return FALSE;
+		while (0 == mask) {
+			next_pgno += 32;
+			if (next_pgno >= 0x900)
+				break;
 
-		mask = pt->pages[++offset];
-	}
-
-#ifdef HAVE_FFS
-	next_pgno += ffs (mask) - 1;
-#elif defined HAVE___BUILTIN_FFS
-	next_pgno += __builtin_ffs (mask) - 1;
-#else
-	for (i = 0; i < 32; ++i) {
-		if (0 != (mask & ((uint32_t) 1 << i))) {
-			next_pgno += i;
-			break;
+			mask = pt->pages[++offset];
 		}
 	}
+
+	if (0 == mask) {
+		next_pgno = 0x900;
+	} else {
+#ifdef HAVE_FFS
+		next_pgno += ffs (mask) - 1;
+#elif defined HAVE___BUILTIN_FFS
+		next_pgno += __builtin_ffs (mask) - 1;
+#else
+		for (i = 0; i < 32; ++i) {
+			if (0 != (mask & ((uint32_t) 1 << i))) {
+				next_pgno += i;
+				break;
+			}
+		}
 #endif
+	}
 
 	if (min_pgno < next_pgno) {
 		*pgno = min_pgno;
 		*subno = min_subno;
-	} else {
+	} else if (next_pgno < 0x900) {
 		*pgno = next_pgno;
 		*subno = VBI_ANY_SUBNO;
+	} else {
+		return FALSE;
 	}
 
 	return TRUE;
